@@ -28,6 +28,9 @@ type capDesc struct {
 	GCMicros    int    `json:"gc_interval_us"`
 	Shards      int    `json:"lru_shards,omitempty"`
 	MaxPerShard int    `json:"lru_max_per_shard,omitempty"`
+	// Flush: "" none; "first" = store a little, Flush, store a little, Flush, then the
+	// pressure phase; "mid" = Flush (twice) while the writers are half way through
+	Flush string `json:"flush,omitempty"`
 }
 
 type capResult struct {
@@ -43,6 +46,8 @@ type capResult struct {
 	Hits       int     `json:"hits"`
 	Foreign    string  `json:"foreign,omitempty"`
 	Prefill    int     `json:"len_after_prefill,omitempty"`
+	Flushes    int     `json:"flushes,omitempty"`
+	AfterFlush int     `json:"stores_after_last_flush,omitempty"`
 }
 
 func capKey(i int, d capDesc, c uint64) hkey {
@@ -80,6 +85,17 @@ func runCapacity(d capDesc) capResult {
 
 	var stop atomic.Bool
 	var maxLen, maxRange, lenSamples, ranges, stored, storedAtExceed atomic.Int64
+	var flushes, storedAtFlush atomic.Int64
+	if d.Flush == "first" {
+		for round := 0; round < 2; round++ {
+			for i := 0; i < 200; i++ {
+				id := int32(1<<26 + round*1000 + i)
+				st.put(hkey{ID: id, S: uint64(i)}, val{ID: int64(id), Key: id, Exp: now() + int64(time.Hour)})
+			}
+			st.flush()
+			flushes.Add(1)
+		}
+	}
 	var gets, hits atomic.Int64
 	var foreign atomic.Value
 	seeLen := func(n int, m *atomic.Int64) {
@@ -169,6 +185,21 @@ func runCapacity(d capDesc) capResult {
 			}
 		}(g)
 	}
+	if d.Flush == "mid" {
+		wg.Add(1)
+		go func() {
+			defer wg.Done()
+			<-start
+			for _, at := range []int64{int64(d.Keys) / 3, int64(d.Keys) / 2} {
+				for stored.Load() < at {
+					runtime.Gosched()
+				}
+				st.flush()
+				flushes.Add(1)
+				storedAtFlush.Store(stored.Load())
+			}
+		}()
+	}
 	close(start)
 	done := make(chan struct{})
 	go func() { wg.Wait(); close(done) }()
@@ -205,6 +236,8 @@ func runCapacity(d capDesc) capResult {
 	res.Ranges = int(ranges.Load())
 	res.Stored = int(storedAtExceed.Load())
 	res.Gets, res.Hits = int(gets.Load()), int(hits.Load())
+	res.Flushes = int(flushes.Load())
+	res.AfterFlush = int(stored.Load() - storedAtFlush.Load())
 	if s, ok := foreign.Load().(string); ok {
 		res.Foreign = s
 	}
@@ -243,6 +276,7 @@ func runStorm(d capDesc) capResult {
 	var stop atomic.Bool
 	var lenSamples, stored, storedAtExceed atomic.Int64
 	maxLens := make([]atomic.Int64, d.Goroutines+3)
+	var flusherMax atomic.Int64
 	see := func(n int, m *atomic.Int64) {
 		if int64(n) > m.Load() {
 			m.Store(int64(n))
@@ -280,6 +314,29 @@ func runStorm(d capDesc) capResult {
 			}
 		}(g)
 	}
+	var flushes, storedAtFlush atomic.Int64
+	if d.Flush == "mid" {
+		// Flush in the middle of the storm, then refill all shards while the writers go on
+		wg.Add(1)
+		go func() {
+			defer wg.Done()
+			<-start
+			total := int64(d.Goroutines * d.Keys)
+			for stored.Load() < total/3 {
+				runtime.Gosched()
+			}
+			c.Flush()
+			flushes.Add(1)
+			storedAtFlush.Store(stored.Load())
+			for i := 0; i < 3*res.Bound; i++ {
+				id := int32(1<<27) + int32(i)
+				c.Store(hkey{ID: id, S: uint64(i)}, val{ID: int64(id), Key: id, Exp: farNs}, far)
+				if i%8 == 0 {
+					see(c.Len(), &flusherMax)
+				}
+			}
+		}()
+	}
 	close(start)
 	done := make(chan struct{})
 	go func() { wg.Wait(); close(done) }()
@@ -296,6 +353,11 @@ func runStorm(d capDesc) capResult {
 		storedAtExceed.CompareAndSwap(0, stored.Load())
 	}
 	res.MaxLen = res.FinalLen
+	if n := int(flusherMax.Load()); n > res.MaxLen {
+		res.MaxLen = n
+	}
+	res.Flushes = int(flushes.Load())
+	res.AfterFlush = int(stored.Load() - storedAtFlush.Load())
 	for i := range maxLens {
 		if n := int(maxLens[i].Load()); n > res.MaxLen {
 			res.MaxLen = n
